@@ -140,6 +140,24 @@ theorem observed_bytes_immutable_handle {g g' : GW} {caps : Nat → Nat} (hg : G
   rw [hgen j _ hcell, List.getElem?_eq_getElem hlt]
   rfl
 
+/-- … hence with a per-OBJECT premise and no side condition on the rest of the world: if iovec `i` references
+no other iovec's pending placeholder memory now (`Unshared`; e.g. it is empty, or it was never a party to a
+clone taken with a placeholder pending) and is never cloned while IT has a placeholder pending
+(`CleanClonesOf i`), then along ANY history that does not reset it — arbitrary operations on all other
+objects, other iovecs cloned with placeholders pending and filled any number of times included — `i` stays
+live and every observed byte of `i` stays. -/
+theorem observed_bytes_immutable_unshared {g g' : GW} {caps : Nat → Nat} (hg : GReach g.w caps)
+    (ops : List WOp) (rs : List WRet) (h : g.run ops = some (g', rs)) (i : Nat) (v : Iov)
+    (hv : g.w.iov i = some v) (hnr : ∀ op ∈ ops, ¬ op.resets i) (hu : Unshared g.w i)
+    (hc : GW.CleanClonesOf i g ops) :
+    (∃ v', g'.w.iov i = some v') ∧
+    (∀ (j : Nat) (b : UInt8), (pipeHistory (absW g i))[j]? = some (Cell.byte b) →
+      (pipeHistory (absW g' i))[j]? = some (Cell.byte b)) ∧
+    ∀ j : Nat, j < (g.ghost i).length + (g.w.visible v).length →
+      (pipeHistory (absW g' i))[j]? = ((g.ghost i ++ g.w.visible v)[j]?).map Cell.byte :=
+  observed_bytes_immutable_handle hg ops rs h i v hv hnr
+    (fillFreeRun_of_unshared i ops g caps hg (iov_lt_of_some hv) hu hc)
+
 /-- The same at the level of memory, for every op but `backfill`, with NO side condition: no slice of any
 object reads different bytes after the step (heap writes go to freshly allocated arena memory);
 `backfill` through another iovec: `Props/C03W.other_handles_unchanged`. -/
